@@ -34,7 +34,7 @@ package raft
 //@   ensures rpcN == old(rpcN) + 1 && rpcLastSvc == svcName && rpcLastMethod == svcMethod && rpcLastArg == args
 //@   modifies rpcN, rpcLastSvc, rpcLastMethod, rpcLastArg
 
-//@ extern libp2praft.Consensus.CommitOp(op)
+//@ extern consensus.OpLogConsensus.CommitOp(op)
 //@   ensures commitOK == old(commitOK) + ite(err == nil, 1, 0)
 //@   modifies commitOK
 
